@@ -56,7 +56,10 @@ def judge_rule(R, fn, dim, order, pts, w, ref: bool, n: int | None):
     pts = np.asarray(pts, dtype=float)
     w = np.asarray(w, dtype=float)
     R.count("rule_returned")
-    P = pts.reshape(len(pts), -1) if pts.ndim > 0 else pts.reshape(1, 1)
+    if pts.size == 0:
+        P = np.zeros((0, dim))  # an empty point set is a point set (of the wrong length)
+    else:
+        P = pts.reshape(len(pts), -1) if pts.ndim > 0 else pts.reshape(1, 1)
     measure = 1.0 if ref else 2.0**dim
     ok = R.check(len(P) == len(w), "len_points_eq_len_weights", {**case, "n_pts": len(P), "n_w": len(w)})
     R.sig([fn, dim, order, "len"])
